@@ -95,6 +95,10 @@ func checkC17(P *Prog, r *Result) {
 	// one schema object used at several places behaves at each as an independent copy would: what it leaves on the
 	// context it shares with its siblings (a caught failure at one field) does not reach the other place (C01's rule)
 	shareRule(P, r, checkC01, "C01/child-clean", nil, "C17/placement-independent", 15)
+	// a test's options act on the issues of that test: the context's current-test slot is read only by code that runs
+	// as that test's Func (C02's rule) - AddIssue applying ctx.Test's Message and IssuePath gives them to the required,
+	// coerce and post-transform issues of whatever runs next on the shared child context
+	shareRule(P, r, checkC02, "C02/current-test", nil, "C17/options-of-the-running-test-only", 2)
 	// ---- field-effects ----
 	for _, k := range R.Kinds {
 		kn := k.Obj().Name()
